@@ -25,6 +25,7 @@ CONSTANTS
   MaxSteps = 9
   RationalOnly = TRUE
   Twins = FALSE
+  SetOnce = FALSE
   Chain = FALSE
   NeedDt = FALSE
   BindLeaves = TRUE
